@@ -45,7 +45,7 @@ def make_project(rng, nfiles: int, tag: str) -> dict:
     # alias bait: one module aliases a library under the name the next one uses for something unrelated - a rule instance that lints
     # both (sequential run) must judge each on its own, like the per-file instances of the workers do
     if nfiles >= 8:
-        for k in sorted(files)[:2]:
+        for k in [f for f in sorted(files) if not f.startswith("bin/")][:2]:  # (the shebang scripts stay)
             del files[k]
         files["src/aa_bait_%s.py" % tag] = ("import re as rx\nimport logging as lg\n\n\ndef scan_a_%s(lines, pat):\n    out = []\n    for line in lines:\n        if pat.match(line):\n            out.append(line)\n"
                                             "    lg.info(out)\n    return out\n\n\ndef by_alias_%s(lines):\n    return [line for line in lines if rx.match(\"x\", line)]\n") % (tag, tag)
